@@ -74,3 +74,5 @@ def step (st : St) (ts : List String) : St × String :=
 
 def suite : Suite := { σ := St, init := {}, step := step }
 end Driver.C16Mon
+
+def Driver.C16Mon.suites : List (String × Driver.Suite) := [("c16mon", Driver.C16Mon.suite)]
